@@ -193,7 +193,7 @@ pub fn layer2(sess: &mut dyn Driver, g: &ShuffleGame, rng: &mut StdRng, rep: &mu
         let go = GoSpec { depth: Some(1), searchmoves: vec![m.uci()], ..Default::default() };
         let out = match search(sess, Some((&fen, &hist)), &go) {
             Ok(o) => o,
-            Err(e) if e == "watchdog" => { rep.inconclusive("watchdog fired"); continue; }
+            Err(e) if e.starts_with("watchdog") => { rep.inconclusive("watchdog fired"); continue; }
             Err(e) => { rep.violation("search-failed", format!("position {} moves {:?}, go depth 1 searchmoves {}: {}", g.start.to_fen(), hist, m.uci(), e), replay); return; }
         };
         rep.eval();
@@ -214,6 +214,23 @@ pub fn layer2(sess: &mut dyn Driver, g: &ShuffleGame, rng: &mut StdRng, rep: &mu
             }
             Some(Reported::Mate(_)) => rep.inconclusive("mate score in a shuffle position"),
             None => rep.violation("no-score", format!("no depth-1 score for {} moves {:?} searchmoves {}", g.start.to_fen(), hist, m.uci()), replay),
+        }
+        // The same root given as a bare FEN (no history) on the same engine instance, optionally after
+        // ucinewgame: whatever was supplied or searched before must not count. The position after m
+        // has now occurred once only, so the value must be material.
+        if c >= 2 && root.half > 0 {
+            if rng.gen_bool(0.5) { let _ = sess.send(&Gui::NewGame); }
+            let bare = Some(root.to_fen());
+            let replay = json!({"kind":"c10-l2-bare","fen":g.start.to_fen(),"moves":hist,"searchmove":m.uci(),"bare_fen":root.to_fen()});
+            if let Ok(out) = search(sess, Some((&bare, &[])), &go) {
+                rep.eval();
+                rep.count("layer2_bare_fen_after_history");
+                if let Some(Reported::Cp(v)) = out.score_at_depth(1).and_then(reported) {
+                    if v.abs() < 200 {
+                        rep.violation("earlier-position-command-counts-as-history", format!("after `position fen {} moves {:?}` the same root was given again as the bare FEN {} (half-move clock {}): {} now creates the first occurrence, static value {}, but scores cp {}", g.start.to_fen(), hist, root.to_fen(), root.half, m.uci(), st, v), replay);
+                    }
+                }
+            }
         }
     }
 }
@@ -249,7 +266,7 @@ pub fn layer3(sess: &mut dyn Driver, rng: &mut StdRng, rep: &mut Report, h: u32,
         let replay = json!({"kind":"c10-l3","fen":fen,"depth":d});
         let out = match search(sess, Some((&Some(fen.clone()), &[])), &GoSpec::depth(d as u64)) {
             Ok(o) => o,
-            Err(e) if e == "watchdog" => { rep.inconclusive("watchdog fired"); return; }
+            Err(e) if e.starts_with("watchdog") => { rep.inconclusive("watchdog fired"); return; }
             Err(e) => { rep.violation("search-failed", format!("go depth {} on {}: {}", d, fen, e), replay); return; }
         };
         rep.eval();
@@ -289,7 +306,7 @@ pub fn layer4(sess: &mut dyn Driver, rng: &mut StdRng, rep: &mut Report) {
     let replay = json!({"kind":"c10-l4","fen":p.to_fen(),"moves":hist,"depth":depth});
     let out = match search(sess, Some((&Some(p.to_fen()), &hist)), &GoSpec::depth(depth)) {
         Ok(o) => o,
-        Err(e) if e == "watchdog" => { rep.inconclusive("watchdog fired"); return; }
+        Err(e) if e.starts_with("watchdog") => { rep.inconclusive("watchdog fired"); return; }
         Err(e) => { rep.violation("search-failed", format!("{} moves {:?} go depth {}: {}", p.to_fen(), hist, depth, e), replay); return; }
     };
     rep.eval();
